@@ -176,7 +176,12 @@ class STV(RankingElection):
         return (tuple(elected), new_profile)
 
     def _single_elect_step(
-        self, profile: PreferenceProfile, prev_state: ElectionState
+        self,
+        profile: PreferenceProfile,
+        prev_state: ElectionState,
+        recorded_tiebreaks: Optional[
+            dict[frozenset[str], tuple[frozenset[str], ...]]
+        ] = None,
     ) -> tuple[
         tuple[frozenset[str], ...],
         dict[frozenset[str], tuple[frozenset[str], ...]],
@@ -198,13 +203,20 @@ class STV(RankingElection):
         """
         ranking_by_fpv = prev_state.remaining
 
-        elected, remaining, tiebreak = elect_cands_from_set_ranking(
-            ranking_by_fpv, m=1, profile=profile, tiebreak=self.tiebreak
-        )
-        if tiebreak:
-            tiebreaks = {tiebreak[0]: tiebreak[1]}
+        if recorded_tiebreaks and ranking_by_fpv[0] in recorded_tiebreaks:
+            # replaying a stored round: follow the recorded resolution of the tie
+            tiebroken_ranking = recorded_tiebreaks[ranking_by_fpv[0]]
+            elected = tiebroken_ranking[:1]
+            remaining = tiebroken_ranking[1:] + ranking_by_fpv[1:]
+            tiebreaks = {ranking_by_fpv[0]: tiebroken_ranking}
         else:
-            tiebreaks = {}
+            elected, remaining, tiebreak = elect_cands_from_set_ranking(
+                ranking_by_fpv, m=1, profile=profile, tiebreak=self.tiebreak
+            )
+            if tiebreak:
+                tiebreaks = {tiebreak[0]: tiebreak[1]}
+            else:
+                tiebreaks = {}
 
         ballots_by_fpv = ballots_by_first_cand(profile)
         new_ballots = [Ballot()] * profile.num_ballots
@@ -267,6 +279,20 @@ class STV(RankingElection):
         """
         tiebreaks: dict[frozenset[str], tuple[frozenset[str], ...]] = {}
 
+        # when a stored round is replayed (store_states=False, e.g. by get_profile) the
+        # step must follow the recorded election: only the seats filled before this round
+        # count, and recorded tiebreaks are reused instead of being drawn again
+        num_elected = len(
+            [c for s in self.get_elected(prev_state.round_number) for c in s]
+        )
+        recorded_tiebreaks: dict[frozenset[str], tuple[frozenset[str], ...]] = {}
+        if not store_states and prev_state.round_number + 1 < len(
+            self.election_states
+        ):
+            recorded_tiebreaks = self.election_states[
+                prev_state.round_number + 1
+            ].tiebreaks
+
         above_thresh_cands = [
             c for c, score in prev_state.scores.items() if score >= self.threshold
         ]
@@ -279,7 +305,7 @@ class STV(RankingElection):
 
             else:
                 elected, tiebreaks, new_profile = self._single_elect_step(
-                    profile, prev_state
+                    profile, prev_state, recorded_tiebreaks
                 )
 
             # no on eliminated in elect round
@@ -287,9 +313,7 @@ class STV(RankingElection):
 
         # catches the possibility that we exhaust all ballots
         # without candidates reaching threshold
-        elif len(profile.candidates) == self.m - len(
-            [c for s in self.get_elected() for c in s]
-        ):
+        elif len(profile.candidates) == self.m - num_elected:
             elected = prev_state.remaining
             eliminated = (frozenset(),)
             new_profile = PreferenceProfile()
@@ -297,7 +321,11 @@ class STV(RankingElection):
         else:
             lowest_fpv_cands = prev_state.remaining[-1]
 
-            if len(lowest_fpv_cands) > 1:
+            if lowest_fpv_cands in recorded_tiebreaks:
+                tiebroken_ranking = recorded_tiebreaks[lowest_fpv_cands]
+                tiebreaks = {lowest_fpv_cands: tiebroken_ranking}
+                eliminated_cand = list(tiebroken_ranking[-1])[0]
+            elif len(lowest_fpv_cands) > 1:
                 tiebroken_ranking = tiebreak_set(
                     lowest_fpv_cands, self.get_profile(0), tiebreak="first_place"
                 )
